@@ -69,7 +69,11 @@ type Cache struct {
 }
 
 func OpenCache(name string) *Cache {
-	c := &Cache{path: filepath.Join("/verif/.cache/oracle", name+".gob"), m: map[string]Result{}}
+	root := os.Getenv("VERIF_ROOT") // set by bin/check: the directory this checker was built in
+	if root == "" {
+		root = "/verif"
+	}
+	c := &Cache{path: filepath.Join(root, ".cache/oracle", name+".gob"), m: map[string]Result{}}
 	if os.Getenv("VERIF_NO_ORACLE_CACHE") != "" {
 		c.path = ""
 		return c
